@@ -275,6 +275,11 @@ def check_summaries(r, payload, cfg, rec, cap, samples, tag):
             r.violation("summary|%s|%s" % (cfg, k), "INFO/%s=%r, recomputed from the GT columns %r (%s)" % (k, info.get(k), v, tag), payload)
     if not nalt and info.get("AC") not in (None, ["."]):
         r.violation("summary|%s|AC" % cfg, "INFO/AC=%r on a record without ALT (%s)" % (info.get("AC"), tag), payload)
+    # INFO/MCI: number of samples whose chains were flagged incongruent
+    if "MCI" in info and all("MCI" in s for s in rec["samples"]):
+        flagged = sum(1 for s in rec["samples"] if s["MCI"] not in (".", None) and float(s["MCI"]) > 0)
+        if ints("MCI") != [flagged]:
+            r.violation("summary|%s|MCI" % cfg, "INFO/MCI=%r, %d sample(s) have FORMAT/MCI > 0 (%s)" % (info.get("MCI"), flagged, tag), payload)
     # DP / RCOUNT from the sample columns
     sdp = [fnum(s.get("DP")) for s in rec["samples"]]
     src = [fnum(s.get("RCOUNT")) for s in rec["samples"]]
